@@ -45,12 +45,17 @@ ROWS = {
        'RMCP, ipmb-dev and Aardvark transports: whatever is returned is the data of a received frame that passes the '
        'specification\'s match predicate (attribution soundness), consecutive sequence numbers differ, a match behind '
        '<= max_retries unrelated frames/time-outs is found, the queue stays empty so later requests are not poisoned. '
-       'Loop bounds, sequence rule and slice bounds are regenerated from the source; the loop models are tied by '
+       'Loop bounds, sequence rule and slice bounds are regenerated from the source, and so is the control flow: the '
+       'five Python functions of the three loops are re-read statement by statement into a tiny loop AST on every run '
+       'and must equal the annotated functions the step models were written from (source_shape_rmcp/_ipmbdev/_aardvark, '
+       'source_facts); a moved, added, removed or changed statement stops these theorems from building. The loop models are tied by '
        'exhaustive orderings (length <= 4..6) over a 9-letter frame alphabet on the real transports with fake '
        'socket/fd/clock.',
-  note='translator harness/translate/loops04.py; hand-written loop models Model/RmcpLoop.lean, IpmbDevLoop.lean tied by '
-       'correspondence; receive events are given (no real timing); sessionless RMCP only (C05/C06 own packing)',
-  tech='Lean 4 proof (invariant by induction over event lists) + translator + exhaustive-ordering correspondence on the real loops'),
+  note='translator harness/translate/loops04.py (syntax-directed AST printer + constant readers); hand-written step '
+       'functions in Model/RmcpLoop.lean and IpmbDevLoop.lean whose source shape is generated and pinned '
+       '(Model/LoopAst.lean, Loops.Shape.*) and whose behaviour is tied by the correspondence run; receive events are '
+       'given (no real timing); sessionless RMCP only (C05/C06 own packing)',
+  tech='Lean 4 proof (invariant by induction over event lists) + translator of constants and of the loops\' statement-level shape + exhaustive-ordering correspondence on the real loops'),
  'C05': dict(
   text='Lean theorems for all payloads, session ids, sequence numbers and passwords: the sent datagram is RMCP v6 / '
        'class IPMI / auth type / LE sequence and id / 16-byte code iff type != none / length byte / payload; the code '
